@@ -324,6 +324,7 @@ func (eng *Engine) verifyFunc(fn *ssa.Function, fc *FuncContract, props []string
 		}
 	}
 	res.Obls = e.obls
+	res.Covers = append(res.Covers, e.siteCovers...)
 	res.Plan = e.plan
 	res.Sct = sct
 	for _, o := range res.Obls {
@@ -642,6 +643,15 @@ func (e *Exec) callByContract(st *State, c *FuncContract, callee *ssa.Function, 
 		if err != nil {
 			e.note("CONTRACT-ERROR contract %s: %v", name, err)
 		}
+		// the callee may allocate: the values it leaves in the modified locations may be objects made
+		// during the call, so the allocation counter advances BEFORE those values are introduced (their
+		// type invariant "older than the counter" must refer to the counter after the call)
+		{
+			tp := e.top(st)
+			nt := e.sc.fresh("top", "Int")
+			e.sc.assert(imp(st.pc, fmt.Sprintf("(>= %s %s)", nt, tp)))
+			st.mem["top"] = nt
+		}
 		for _, t := range targets {
 			if t.lens != nil {
 				el := t.lens.T.Underlying().(*types.Pointer).Elem()
@@ -661,10 +671,6 @@ func (e *Exec) callByContract(st *State, c *FuncContract, callee *ssa.Function, 
 			e.assume(st, e.wfBySort(st, nv, elemSort))
 			e.memSet(st, t.key, t.sort, fmt.Sprintf("(store %s %s %s)", cur, t.ref, nv))
 		}
-		tp := e.top(st)
-		nt := e.sc.fresh("top", "Int")
-		e.sc.assert(imp(st.pc, fmt.Sprintf("(>= %s %s)", nt, tp)))
-		st.mem["top"] = nt
 	} else {
 		if pt, ok := c.Flags["preserves_types"]; ok {
 			e.keepTypes = strings.Fields(pt)
@@ -1031,6 +1037,14 @@ func (e *Exec) cutLoopHead(fn *ssa.Function, fc *FuncContract, l *loopInfo, st *
 			}
 			keys["ghost|"+name] = e.sc.sortOf(t)
 		}
+	}
+	// earlier iterations may have allocated: the counter at the loop head is some value not below the
+	// one on entry, and the arbitrary values introduced below may be objects made by those iterations
+	{
+		tp := e.top(st)
+		nt := e.sc.fresh("top", "Int")
+		e.sc.assert(imp(st.pc, fmt.Sprintf("(>= %s %s)", nt, tp)))
+		st.mem["top"] = nt
 	}
 	// keys for which the function's modifies clause names individual objects
 	// are havocked only at those objects (loop frame rule; checked on the back edge)
